@@ -31,7 +31,15 @@ Traces == JsonDeserialize(IOEnv.TRACE_FILE).traces
 VARIABLES blk, tid
 vars == <<blk, tid>>
 
-KFWriter == " KF=C16-sdf-writer"
+(* Known findings (known_findings.json decides whether they are open or fixed).                 *)
+(* C16-sdf-writer: at the pinned commit Molecule.to_sdf_string / fmt.sdf wrote x into the y and  *)
+(* z fields, a blank between the 10-wide coordinate fields, and counts / bond atoms >= 100 four  *)
+(* wide.  The blank does not depend on the input: the failing class is every molecule written    *)
+(* as SDF (KnownSdfWriter); only the layout / content clauses of library-written text carry it.  *)
+(* C16-sdf-reader-end: parse_sdf_contents raised IndexError on a record with nothing after       *)
+(* "M  END" (SdfEndsAtMEnd, a predicate over the text given to the reader).                      *)
+KnownSdfWriter(mols) == Len(mols) >= 1
+KFWriterOf(mols) == IF KnownSdfWriter(mols) THEN " KF=C16-sdf-writer" ELSE ""
 KFReaderEnd == " KF=C16-sdf-reader-end"
 
 (* the as-built property-block loop fails with IndexError exactly on records that end at "M  END" *)
@@ -84,12 +92,12 @@ SdfRtVerdict(mols, wexc, lines, back) ==
   IF wexc # "" THEN "REJECT WriteRaised:" \o wexc ELSE
   IF ~AllPrintable(lines) THEN "REJECT TextBytes" ELSE
   LET R == SdfRecords(lines) IN
-  IF Len(R) # Len(mols) THEN "REJECT Records" \o KFWriter ELSE
+  IF Len(R) # Len(mols) THEN "REJECT Records" ELSE
   LET lay == Tup([i \in DOMAIN R |-> SdfLayout(R[i])])
       badLay == {i \in DOMAIN R : lay[i] # ""}
-  IN IF badLay # {} THEN "REJECT SdfLayout." \o lay[FirstBad(badLay)] \o KFWriter ELSE
+  IN IF badLay # {} THEN "REJECT SdfLayout." \o lay[FirstBad(badLay)] \o KFWriterOf(mols) ELSE
   LET rr == Tup([i \in DOMAIN R |-> SdfReadRecord(R[i])]) IN
-  IF \E i \in DOMAIN R : ~(rr[i].ok /\ SdfAtomsFromInput(mols[i].atoms, rr[i].atoms)) THEN "REJECT WriterContent" \o KFWriter ELSE
+  IF \E i \in DOMAIN R : ~(rr[i].ok /\ SdfAtomsFromInput(mols[i].atoms, rr[i].atoms)) THEN "REJECT WriterContent" \o KFWriterOf(mols) ELSE
   IF back.exc # "" THEN "REJECT ReadRaised:" \o back.exc \o ReaderEndTag(back.exc, R) ELSE
   IF Len(back.mols) # Len(mols) THEN "REJECT RecordCount" ELSE
   IF back.offgrid THEN "REJECT OnGrid" ELSE
